@@ -37,6 +37,23 @@ func runC02(c *Ctx) {
 	r.Doc("X7", "simplified disciplines: per received item exactly one Handle(item) then exactly one release of its priority", 2)
 	c02priority(c, c.V1, "")
 	c02priority(c, c.V2, "")
+	// X8: normal termination only after every input was observed closed and empty - otherwise
+	// items written before the close are never delivered (= C07 E0-E3)
+	r.Doc("X8", "(= C07 E1-E3) the scheduler ends normally only after all inputs were observed drained; drained is set only on the closed edge; the all-drained helper visits every input", 10)
+	for _, p := range []*Prog{c.V1, c.V2} {
+		sr, err := resolveSchedRoles(p)
+		if err != nil {
+			r.Fail("X8", p.Name+":priority", "-", err.Error())
+			continue
+		}
+		sub := &Ctx{V1: c.V1, V2: c.V2, Tier: c.Tier, R: NewReport("tmp", c.Tier)}
+		c07loopReturns(sub, sr)
+		c07drainedMarks(sub, sr)
+		c07forall(sub, sr, sr.allDrained, "Drained")
+		for _, o := range sub.R.Obls {
+			r.Check(o.OK, "X8", o.Key, o.Site, o.Detail, o.Detail)
+		}
+	}
 }
 
 // c02V1Subsequence re-uses the v1 rules under C16/S7.
